@@ -5,6 +5,7 @@ package props
 // are live) hold by construction, never by rejection.
 
 import (
+	"fmt"
 	"sort"
 
 	"pgregory.net/rapid"
@@ -16,6 +17,10 @@ type Block struct {
 	Del []int  `json:"del,omitempty"` // slots to delete, in request order
 	Add int    `json:"add,omitempty"` // number of leaves appended
 	Rem []int  `json:"rem,omitempty"` // ascending indexes (within the adds) to remember
+	// Reuse: pairs {add index, slot}: that added leaf carries the hash of the leaf of that slot, which is
+	// dead once this block's deletions are done (spent in this very block or earlier) and whose hash
+	// is not the hash of any live leaf: a spent leaf re-created with the same hash.
+	Reuse [][2]int `json:"reuse,omitempty"`
 	Prune []int `json:"prune,omitempty"` // slots a partial map forest is asked to Prune right before this block (remembered, live)
 	Salt int   `json:"salt,omitempty"` // branch id: added leaves hash as LeafHash(Salt*1e6+slot), so that leaves re-added on another branch after an undo differ
 	DM  string `json:"dm,omitempty"`  // deletion mode that produced Del (coverage label)
@@ -216,11 +221,102 @@ func genBlock(t *rapid.T, f *model.Forest, lim limits, remember bool) Block {
 
 // applyToModel advances the reference model by one block.
 func applyToModel(f *model.Forest, b Block) {
+	hs := blockAddHashes(f, b)
 	for _, s := range b.Del {
 		f.Kill(s)
 	}
-	for i := 0; i < b.Add; i++ {
-		f.Add(leafHashOf(b.Salt, len(f.Hashes)))
+	for _, h := range hs {
+		f.Add(h)
+	}
+}
+
+// blockAddHashes returns the hashes of the leaves block b adds to the (pre-block) forest f.
+func blockAddHashes(f *model.Forest, b Block) []Hash {
+	first := len(f.Hashes)
+	hs := make([]Hash, b.Add)
+	for k := range hs {
+		hs[k] = leafHashOf(b.Salt, first+k)
+	}
+	for _, r := range b.Reuse {
+		if r[0] >= 0 && r[0] < b.Add && r[1] >= 0 && r[1] < first {
+			hs[r[0]] = f.Hashes[r[1]]
+		}
+	}
+	return hs
+}
+
+// checkReuse validates the Reuse pairs of a block against the pre-block forest (replay files only).
+func checkReuse(f *model.Forest, b Block) error {
+	usedAdd, usedHash := map[int]bool{}, map[Hash]bool{}
+	for _, r := range b.Reuse {
+		if r[0] < 0 || r[0] >= b.Add || r[1] < 0 || r[1] >= len(f.Hashes) || usedAdd[r[0]] {
+			return fmt.Errorf("case error: bad reuse pair %v", r)
+		}
+		h := f.Hashes[r[1]]
+		if usedHash[h] {
+			return fmt.Errorf("case error: hash reused twice")
+		}
+		for s, x := range f.Hashes {
+			if x == h && !f.Dead[s] && !inSet(b.Del, s) {
+				return fmt.Errorf("case error: reuse of slot %d whose hash is live in slot %d", r[1], s)
+			}
+		}
+		usedAdd[r[0]], usedHash[h] = true, true
+	}
+	return nil
+}
+
+// genReuse decorates block b (not yet applied to f) with re-created spent leaves.
+func genReuse(t *rapid.T, f *model.Forest, b *Block) {
+	if b.Add == 0 || rapid.IntRange(0, 3).Draw(t, "reuse") != 0 {
+		return
+	}
+	liveHash := map[Hash]bool{}
+	for s, h := range f.Hashes {
+		if !f.Dead[s] && !inSet(b.Del, s) {
+			liveHash[h] = true
+		}
+	}
+	var cands []int
+	seen := map[Hash]bool{}
+	for _, s := range b.Del { // spent in this very block first
+		if h := f.Hashes[s]; !liveHash[h] && !seen[h] {
+			seen[h] = true
+			cands = append(cands, s)
+		}
+	}
+	for s, h := range f.Hashes {
+		if f.Dead[s] && !liveHash[h] && !seen[h] {
+			seen[h] = true
+			cands = append(cands, s)
+		}
+	}
+	if len(cands) == 0 {
+		return
+	}
+	n := rapid.IntRange(1, min(2, min(b.Add, len(cands)))).Draw(t, "nreuse")
+	idx := rapid.Permutation(func() []int {
+		x := make([]int, b.Add)
+		for i := range x {
+			x[i] = i
+		}
+		return x
+	}()).Draw(t, "reuse-adds")
+	for k := 0; k < n; k++ {
+		pick := k
+		if k >= len(b.Del) || rapid.Bool().Draw(t, "reuse-any") {
+			pick = rapid.IntRange(0, len(cands)-1).Draw(t, "reuse-slot")
+		}
+		slot := cands[pick]
+		dup := false
+		for _, r := range b.Reuse {
+			if f.Hashes[r[1]] == f.Hashes[slot] {
+				dup = true
+			}
+		}
+		if !dup {
+			b.Reuse = append(b.Reuse, [2]int{idx[k], slot})
+		}
 	}
 }
 
